@@ -154,6 +154,11 @@ class IntroWorld(NatWorld):
         else:
             self._mk("A", keys[0], ta, None, "5.5.5.5", "192.168.1.2", 5000)
             self._mk("C", keys[2], tc, None, "6.6.6.6", "10.0.2.3", 6000)
+        if cfg.get("shadow"):
+            # E lives behind another (full-cone) NAT and happens to have the very LAN address C has: consumer routers
+            # hand out the same few private ranges everywhere
+            assert placement == "same"
+            self._mk("E", keys[6], "full", None, "7.7.7.7", "192.168.1.3", 6000)
         lan_ips = ["11.1.1.1", "10.12.0.2", "172.16.13.2", "192.168.14.2"]
         for i in range(cfg["k"] - 1):
             self._mk(f"D{i + 1}", keys[3 + i], EXTRA_KINDS[i], None, f"1{i + 1}.1.1.1", lan_ips[i], 7001 + i)
@@ -293,6 +298,13 @@ def run_one(cfg: dict, schedule: tuple, seed: int, depth: int, post: bool = Fals
             if pc is not None:
                 w.call("B", ov_b.get_new_introduction, pc)
                 w.flush()
+        if cfg.get("shadow"):
+            # E registers with B; A gets to know E (a verified peer of A whose recorded LAN address equals C's)
+            w.request_intro("E", B_ADDR, style_of(cfg, "C"))
+            w.flush()
+            w.request_intro("A", w.public_address_of("E"), style_of(cfg, "A"))
+            w.flush()
+            order = [*order, "E"]
         # history: NAT mapping renewed on another port (public node: re-bound), then an ordinary re-announcement to B
         remapped = {}
         for name in {"none": (), "C": ("C",), "A": ("A",), "both": ("C", "A")}[cfg["remap"]]:
@@ -418,6 +430,8 @@ def run_one(cfg: dict, schedule: tuple, seed: int, depth: int, post: bool = Fals
         first = connected()
         placement = "same-box" if (cfg["placement"] == "same" and x == "C") else "different"
         how = "introducer-walked-to-peer" if (b_walked and x == "C") else "peer-walked-to-introducer"
+        if cfg.get("shadow"):
+            how += "|requester-knows-a-peer-elsewhere-with-the-same-lan-address"
         tx = w.kind_of[x]
         trail = (f"{cfg} introduced={x}({tx}) schedule={list(schedule)}: A walked to {walked}; "
                  f"main-round deliveries: {fmt_deliveries(main_deliv)}; drops: {fmt_drops(w, n_warm)}; "
@@ -569,6 +583,9 @@ def base_configs(thorough: bool) -> list[dict]:
             if thorough:
                 out.append(variant(*p, style, 2, "warm", "b-walked", start="snapshot"))
                 out.append(variant(*p, style, 1, "cold", "x-walked", start="snapshot", remap="C"))
+        # A already has a verified peer behind ANOTHER NAT whose LAN address is the one C has on A's own LAN
+        for p in same:
+            out.append(variant(*p, style, 1, "warm", "x-walked", shadow=True))
         # earlier connection, then C's mapping renewed and A (or both) forgot the other: a second introduction
         for p in (pairs if thorough else vary_c):
             out.append(variant(*p, style, 1, "warm", "x-walked", start="reunion"))
@@ -578,6 +595,7 @@ def base_configs(thorough: bool) -> list[dict]:
     for c in out:
         c.setdefault("remap", "none")
         c.setdefault("start", "fresh")
+        c.setdefault("shadow", False)
     return out
 
 
